@@ -253,12 +253,6 @@ class CLDesign:
                 "mu": [[mi[a], bi[b]] for a, b in self.mu],
                 "uu": [[bi[a], bi[b]] for a, b in self.uu]}
 
-    def selfref(self):
-        """a block is constrained against a method it invokes itself (or, through == / < chains, against a
-        method ordered with one it invokes): the reading `by other blocks` applies"""
-        inv = {b[0]: set(b[2]) for b in self.all_blocks()}
-        return any(m in inv[b] for b, m in self.um) or any(m in inv[b] for m, b in self.mu)
-
     # -- source -------------------------------------------------------------------------------
     def cls(self, what):
         return "%s_%s" % (self.name, what)
@@ -1495,7 +1489,7 @@ def run_phase(res, tier):
         # ---- the real simulator
         _W.update(designs=designs, descs=descs, info=info, exts=exts, sdir=sdir,
                   params={"seeds": (0, 1) if quick else (0, 1, 2, 3), "cycles": 2,
-                          "ol_seeds": (0, 1, 2) if quick else tuple(range(8)), "ol_calls": 8 if quick else 14,
+                          "ol_seeds": tuple(range(6)) if quick else tuple(range(16)), "ol_calls": 8 if quick else 14,
                           "own_limit": 6 if quick else 24})
         # designs the acyclic-only passes refuse go through dump_dag (one fixed file in /tmp): one process
         cyc_all = [i for i in range(len(designs)) if info[i]["cyc"] or info[i]["cyc_ol"]]
